@@ -4,4 +4,9 @@ package c03
 // actors: the replay of the stored snapshot and events (recoveryPersistence) are handler invocations
 // too and must come after OnLaunch. The suite `persist` of property C09 observes exactly that order (its
 // canonical actor resets its state in OnLaunch), so it is part of C03's check as well.
-import _ "verifharness/suites/c09"
+import (
+	// suite lifecycle-timers (registered by the c08 package): lifecycles under expiry, idle deadline, timers and
+	// slow restarts, judged by the lifecycle automaton
+	_ "verifharness/suites/c08"
+	_ "verifharness/suites/c09"
+)
